@@ -19,7 +19,25 @@ pub struct EvInfo {
     pub origintype: Option<String>,
     pub invokeid: Option<String>,
     pub params: Option<Vec<(String, String)>>,
+    /// data-model type of each parameter value (Data variant name), same order as `params`
+    pub ptypes: Vec<(String, &'static str)>,
     pub content: Option<String>,
+}
+
+pub fn data_kind(d: &rufsm::datamodel::Data) -> &'static str {
+    use rufsm::datamodel::Data;
+    match d {
+        Data::Integer(_) => "Integer",
+        Data::Double(_) => "Double",
+        Data::String(_) => "String",
+        Data::Boolean(_) => "Boolean",
+        Data::Array(_) => "Array",
+        Data::Map(_) => "Map",
+        Data::Null() => "Null",
+        Data::Error(_) => "Error",
+        Data::Source(_) => "Source",
+        Data::None() => "None",
+    }
 }
 
 impl EvInfo {
@@ -35,6 +53,11 @@ impl EvInfo {
                 .param_values
                 .as_ref()
                 .map(|v| v.iter().map(|p| (p.name.clone(), p.value.to_string())).collect()),
+            ptypes: e
+                .param_values
+                .as_ref()
+                .map(|v| v.iter().map(|p| (p.name.clone(), data_kind(&p.value))).collect())
+                .unwrap_or_default(),
             content: e.content.as_ref().map(|c| c.to_string()),
         }
     }
